@@ -77,7 +77,9 @@ fn norm_err<E>(e: Error<E>) -> PErr {
 			sp.end(),
 		),
 	};
-	if pos != p || span.start() != s || span.end() != t {
+	// the span of an unexpected character may be empty or cover that character (at most 4 units)
+	let unexpected_char_span = matches!(r, PErr::Unexpected(_, Some(_))) && span.start() == s && span.end() > s && span.end() - s <= 4;
+	if pos != p || span.start() != s || (span.end() != t && !unexpected_char_span) {
 		return PErr::Incoherent(format!(
 			"{:?}: position()={} span()={}..{}",
 			r,
